@@ -8,7 +8,7 @@ import time
 from .facts import VERIF, AnalysisBroken
 
 KNOWN_FILE = os.path.join(VERIF, 'known_findings.json')
-EVIDENCE_DIR = os.path.join(VERIF, 'evidence')
+EVIDENCE_DIR = os.environ.get('BSV_EVIDENCE_DIR') or os.path.join(VERIF, 'evidence')     # trials on scratch worktrees write elsewhere
 OUT_DIR = os.path.join(VERIF, 'out')
 
 
